@@ -1,6 +1,7 @@
 package gnogo
 
 import (
+	"encoding/json"
 	"fmt"
 	"os"
 	"testing"
@@ -11,11 +12,45 @@ func TestDevRun(t *testing.T) {
 	if p := os.Getenv("GNOSRC"); p != "" {
 		b, _ := os.ReadFile(p)
 		r := runGno(string(b))
-		fmt.Printf("GNO out:\n%s\nrejected: %q\npanic: %q\n", r.Out, r.Rejected, r.Panic)
+		fmt.Printf("GNO out:\n%s\nrejected: %q\npanic: %q\ncrash: %.300q\n", r.Out, r.Rejected, r.Panic, r.Crash)
 	}
 	if p := os.Getenv("GOSRC"); p != "" {
 		b, _ := os.ReadFile(p)
 		r := runGo(string(b))
 		fmt.Printf("GO out:\n%s\ncompile: %q\nrun: %q\n", r.Out, r.CompileErr, r.RunErr)
+	}
+}
+
+// development aid: run every fragment of a replay file alone on GnoVM (and Go) and report
+func TestDevBisect(t *testing.T) {
+	p := os.Getenv("REPLAY")
+	if p == "" {
+		t.Skip()
+	}
+	b, _ := os.ReadFile(p)
+	var rf struct {
+		Case progCase `json:"case"`
+	}
+	if err := json.Unmarshal(b, &rf); err != nil {
+		t.Fatal(err)
+	}
+	for i, f := range rf.Case.Frags {
+		goSrc, gnoSrc := render([]Frag{f})
+		func() {
+			defer func() {
+				if r := recover(); r != nil {
+					fmt.Printf("FRAG %d: VM GO-PANIC: %v\n", i, r)
+					os.WriteFile(fmt.Sprintf("/var/tmp/gnogo-tmp/bisect-%d.gno", i), []byte(gnoSrc), 0o644)
+				}
+			}()
+			r := runGno(gnoSrc)
+			g := runGo(goSrc)
+			if r.Crash != "" || r.Rejected != "" || r.Panic != "" || r.Out != g.Out {
+				fmt.Printf("FRAG %d: differs: crash=%.80q rejected=%q panic=%q diff=%s\n", i, r.Crash, r.Rejected, r.Panic, firstDiff(g.Out, r.Out))
+				os.WriteFile(fmt.Sprintf("/var/tmp/gnogo-tmp/bisect-%d.gno", i), []byte(gnoSrc), 0o644)
+			} else {
+				fmt.Printf("FRAG %d: same\n", i)
+			}
+		}()
 	}
 }
